@@ -397,6 +397,38 @@ MUTANTS = [
     }
 
     fn compile_comparison_op(""", expect="V-codegen::Compiler::compile_compound_assignment_op::temporaries_released"),
+    # ---- V-callseq
+    dict(name="callseq_piped_value_last", kind="break", prop="C02", units=["V-callseq"], file="crates/bytecode/src/compiler.rs",
+         old="""        let arg_offset = if let Some(piped_arg) = piped_arg {
+            arg_count += 1;
+            let arg_register = self.push_register()?;
+            self.push_op(Copy, &[arg_register, piped_arg]);
+            1
+        } else {
+            0
+        };
+""", new="""        let arg_offset = 0;
+""", expect="V-callseq::Compiler::compile_call::"),
+    dict(name="callseq_piped_arg_not_counted", kind="break", prop="C02", units=["V-callseq"], file="crates/bytecode/src/compiler.rs",
+         old="            arg_count += 1;\n            let arg_register = self.push_register()?;", new="            let arg_register = self.push_register()?;", expect="V-callseq::Compiler::compile_call::"),
+    dict(name="callseq_args_into_any_register", kind="break", prop="C02", units=["V-callseq"], file="crates/bytecode/src/compiler.rs",
+         old="            self.compile_node(*arg, ctx.with_fixed_register(arg_register))?;\n        }\n\n        // Indices of args that need to be unpacked", new="            self.compile_node(*arg, ctx.with_any_register())?;\n        }\n\n        // Indices of args that need to be unpacked", expect="V-callseq::Compiler::compile_call::"),
+    dict(name="callseq_packed_index_ignores_piped_offset", kind="break", prop="C02", units=["V-callseq"], file="crates/bytecode/src/compiler.rs",
+         old="                packed_arg_indices.push(arg_offset + i as u8);", new="                packed_arg_indices.push(i as u8);", expect="V-callseq::Compiler::compile_call::"),
+    dict(name="callseq_instance_never_reused_as_frame_base", kind="break", prop="C02", units=["V-callseq"], file="crates/bytecode/src/compiler.rs",
+         old="            if instance == self.frame().next_temporary_register() - 1 {", new="            if instance == self.frame().next_temporary_register() {", expect="V-callseq::Compiler::compile_call::"),
+    dict(name="callseq_result_into_function_register", kind="break", prop="C02", units=["V-callseq"], file="crates/bytecode/src/compiler.rs",
+         old="""                Call,
+                &[
+                    call_result_register,
+                    function_register,
+                    frame_base,""", new="""                Call,
+                &[
+                    function_register,
+                    function_register,
+                    frame_base,""", expect="V-callseq::Compiler::compile_call::"),
+    dict(name="callseq_registers_not_released", kind="break", prop="C02", units=["V-callseq"], file="crates/bytecode/src/compiler.rs",
+         old="        self.truncate_register_stack(stack_count)?;\n\n        Ok(result)\n    }\n\n    fn compile_if(", new="        Ok(result)\n    }\n\n    fn compile_if(", expect="V-callseq::Compiler::compile_call::temporaries_released"),
     # ---- V-adaptors2
     dict(name="chunks_f35_capacity_is_the_chunk_size", kind="break", prop="C06", units=["V-adaptors2"], file="crates/runtime/src/core_lib/iterator/adaptors.rs",
          old=".get_or_insert_with(|| Vec::with_capacity(capacity))", new=".get_or_insert_with(|| Vec::with_capacity(self.chunk_size))", expect="V-adaptors2::Chunks::next::chunk_buffer_allocatable"),
